@@ -88,6 +88,14 @@ func (p *compressionPool) compress(dst, src *bytes.Buffer) error {
 }
 
 func (p *compressionPool) decompress(dst, src *bytes.Buffer) error {
+	return p.decompressLimited(dst, src, -1)
+}
+
+// decompressLimited is like decompress but gives up with a "resource exhausted"
+// error once more than limit bytes have been produced (if limit is not negative),
+// so that a small compressed message cannot be inflated into an arbitrarily large
+// buffer.
+func (p *compressionPool) decompressLimited(dst, src *bytes.Buffer, limit int64) error {
 	if p == nil {
 		_, err := io.Copy(dst, src)
 		return err
@@ -100,8 +108,17 @@ func (p *compressionPool) decompress(dst, src *bytes.Buffer) error {
 	if err := decomp.Reset(src); err != nil {
 		return err
 	}
-	if _, err := dst.ReadFrom(decomp); err != nil {
+	var reader io.Reader = decomp
+	if limit >= 0 {
+		reader = io.LimitReader(decomp, limit+1)
+	}
+	n, err := dst.ReadFrom(reader)
+	if err != nil {
 		return err
+	}
+	if limit >= 0 && n > limit {
+		_ = decomp.Close()
+		return bufferLimitError(limit)
 	}
 	return decomp.Close()
 }
